@@ -159,10 +159,24 @@ def strip_verif(src, clean):
     """Blank the items / statements under `#[cfg(feature = "verif")]` (hooks are not part of the crate)."""
     out = list(clean)
     for m in re.finditer(r'#\[cfg\(\s*feature\s*=\s*"verif"\s*\)\]', src):
-        j = m.end()
-        while j < len(clean) and clean[j] not in "{;":
+        # the item / statement / struct field / initialiser the attribute applies to: up to its
+        # block, or to the `;` / `,` that ends it (outside parentheses), or to the end of the block
+        j, depth = m.end(), 0
+        while j < len(clean):
+            ch = clean[j]
+            if ch in "([":
+                depth += 1
+            elif ch in ")]":
+                depth -= 1
+            elif depth == 0 and ch in "{;,}":
+                break
             j += 1
-        end = match_brace(clean, j) if j < len(clean) and clean[j] == "{" else j + 1
+        if j < len(clean) and clean[j] == "{":
+            end = match_brace(clean, j)
+        elif j < len(clean) and clean[j] == "}":
+            end = j
+        else:
+            end = j + 1
         for k in range(m.start(), min(end, len(clean))):
             if out[k] != "\n":
                 out[k] = " "
@@ -189,6 +203,45 @@ def store_sites(repo):
                 sites.append((m.start(), f, enclosing_fn(clean, m.start()) or "?", what))
     sites.sort(key=lambda t: (t[1], t[0]))
     return [(f, fn, what) for _, f, fn, what in sites]
+
+
+def entry_sites(repo):
+    """Every non-test, non-hook call of `add_known_address` / `dial_address` in src/**/*.rs (method or
+    path calls; definitions are not sites): (file relative to src/, enclosing function, callee) in the
+    order of the source. These are all the ways an address can be offered to the address book."""
+    sites = []
+    root = os.path.join(repo, "src")
+    paths = []
+    for d, _, fs in os.walk(root):
+        for f in fs:
+            if f.endswith(".rs"):
+                paths.append(os.path.relpath(os.path.join(d, f), root))
+    for rel in sorted(paths):
+        parts = rel.split(os.sep)
+        base = parts[-1]
+        if "tests" in parts or base in ("tests.rs", "mock.rs") or "s2n-quic" in parts:
+            continue
+        if base == "verif.rs" or base.startswith("verif_"):
+            continue
+        src = open(os.path.join(root, rel)).read()
+        clean = strip_tests(strip_verif(src, blank(src)))
+        for m in re.finditer(r"(?:\.|::)\s*(add_known_address|dial_address)\s*\(", clean):
+            sites.append((rel.replace(os.sep, "/"), enclosing_fn(clean, m.start()) or "?", m.group(1)))
+    return sites
+
+
+def new_call_order(repo):
+    """The calls of `register_listen_address` and `add_known_address` inside `Litep2p::new`
+    (src/lib.rs), in source order: the configured known addresses must be filtered against the listen
+    addresses the transports have registered."""
+    src = open(os.path.join(repo, "src", "lib.rs")).read()
+    clean = strip_tests(strip_verif(src, blank(src)))
+    m = re.search(r"\bpub\s+fn\s+new\s*\(", clean)
+    if not m:
+        return []
+    j = clean.index("{", m.end())
+    body = clean[j:match_brace(clean, j)]
+    return [x.group(1) for x in re.finditer(r"\.\s*(register_listen_address|add_known_address)\s*\(", body)]
 
 
 def generate(repo):
@@ -274,21 +327,30 @@ def generate(repo):
         missing.append(("C10_STORE_SITES", MGR, str(e)))
     if not sites:
         missing.append(("C10_STORE_SITES", MGR, "no address-store write site found"))
-    write(variants, gates, arms, sorted(consts.items()), sites)
+    try:
+        entries = entry_sites(repo)
+        order = new_call_order(repo)
+    except (OSError, ValueError) as e:
+        entries, order = [], []
+        missing.append(("C10_ENTRY_SITES", "src", str(e)))
+    if not entries:
+        missing.append(("C10_ENTRY_SITES", "src", "no add_known_address / dial_address call found"))
+    write(variants, gates, arms, sorted(consts.items()), sites, entries, order)
     leaves = 0
     for _, l2 in variants:
         if not l2:
             leaves += 1
         for _, l3 in l2:
             leaves += max(1, len(l3))
-    return {"C10_DIAL_ERROR_LEAVES": leaves, "C10_ERROR_SCORE_ARMS": len(arms), "C10_STORE_SITES": len(sites)}, missing
+    return {"C10_DIAL_ERROR_LEAVES": leaves, "C10_ERROR_SCORE_ARMS": len(arms), "C10_STORE_SITES": len(sites),
+            "C10_ENTRY_SITES": len(entries)}, missing
 
 
 def coq_z(v):
     return "(%d)%%Z" % v
 
 
-def write(variants, gates, arms, consts, sites):
+def write(variants, gates, arms, consts, sites, entries=(), order=()):
     def strs(l):
         return "[" + "; ".join('"%s"' % x for x in l) + "]"
 
@@ -324,6 +386,15 @@ def write(variants, gates, arms, consts, sites):
         "   into a peer's address store or replaces/removes a peer context: (file, function, what) *)",
         "Definition store_sites : list (string * string * string) :=",
         "  [" + ";\n   ".join('("%s", "%s", "%s")' % t for t in sites) + "].",
+        "",
+        "(* every non-test, non-hook call of add_known_address / dial_address in src/**/*.rs:",
+        "   (file, enclosing function, callee) *)",
+        "Definition entry_sites : list (string * string * string) :=",
+        "  [" + ";\n   ".join('("%s", "%s", "%s")' % t for t in entries) + "].",
+        "",
+        "(* the register_listen_address / add_known_address calls of Litep2p::new (src/lib.rs), in source order *)",
+        "Definition new_call_order : list string :=",
+        "  [" + "; ".join('"%s"' % x for x in order) + "].",
     ]
     text = "\n".join(lines) + "\n"
     os.makedirs(os.path.dirname(OUT), exist_ok=True)
